@@ -25,15 +25,18 @@ static unsigned char fe_byte(const secp256k1_fe *a, size_t i) { unsigned char t[
 #ifndef VERIF_NATIVE
 void h_xo_parity(void) {
     INPUT(secp256k1_fe, x); INPUT(int, odd); INPUT(secp256k1_ge, r0);
-    secp256k1_ge r = r0; secp256k1_fe x0; int ret;
+    secp256k1_ge r = r0; secp256k1_fe x0; const secp256k1_fe *sq; int ret;
     __CPROVER_assume(fe_canon(&x) && (odd == 0 || odd == 1));
     x0 = x; g_sqrt_n = 0; g_fmul_n = 0; g_fsqr_n = 0;
     ret = secp256k1_ge_set_xo_var(&r, &x, odd);
     __CPROVER_assert(XO_POST(ret, &r, FE_EQ(r.x, x0), odd), "C03 ge_set_xo_var: contract XO_POST: x kept, not infinity, y of magnitude <= 2 whose canonical value has the requested parity (unless zero)");
     __CPROVER_assert(FE_EQ(x, x0), "C03 ge_set_xo_var: the input x is not modified");
-    __CPROVER_assert(g_sqrt_n == 1 && ret == g_sqrt_v0, "C03 ge_set_xo_var: returns the verdict of the single square-root computation");
-    __CPROVER_assert(g_fsqr_n == 1 && g_fmul_n == 1 && FE_EQ(g_fsqr_a0, x0) && FE_EQ(g_fmul_a0, x0) && FE_EQ(g_fmul_b0, g_fsqr_r0), "C03 ge_set_xo_var: the value whose root is taken is built from x * x^2 of the given x");
-    __CPROVER_assert(fval(&g_sqrt_a0) == fval(&g_fmul_r0) + 7, "C03 ge_set_xo_var: the value whose root is taken is x^3 + 7");
+    __CPROVER_assert(g_sqrt_n >= 1 && ret == g_sqrt_v0, "C03 ge_set_xo_var: returns the verdict of the square-root computation");
+    /* x^3 as the field oracles see it: a product of x with a square of x - either operand order, whichever call slot */
+    sq = (g_fsqr_n >= 1 && c03_same(&g_fsqr_a0, &x0)) ? &g_fsqr_r0 : &g_fsqr_r1;
+    __CPROVER_assert((g_fsqr_n >= 1 && c03_same(&g_fsqr_a0, &x0)) || (g_fsqr_n >= 2 && c03_same(&g_fsqr_a1, &x0)), "C03 ge_set_xo_var: the given x is squared");
+    __CPROVER_assert(g_fmul_n >= 1 && ((c03_same(&g_fmul_a0, &x0) && c03_same(&g_fmul_b0, sq)) || (c03_same(&g_fmul_b0, &x0) && c03_same(&g_fmul_a0, sq))), "C03 ge_set_xo_var: x is multiplied by that square (either operand order)");
+    __CPROVER_assert(c03_mod_p_big(fval(&g_sqrt_a0)) == c03_mod_p_big(fval(&g_fmul_r0) + 7), "C03 ge_set_xo_var: the value whose root is taken is x^3 + 7");
     __CPROVER_assert(c03_mod_p(fval(&r.y)) == c03_mod_p(fval(&g_sqrt_r0)) || c03_mod_p(fval(&r.y)) + c03_mod_p(fval(&g_sqrt_r0)) == P_(), "C03 ge_set_xo_var: y is the oracle's root or its negation");
     if (ret && odd && (c03_mod_p(fval(&g_sqrt_r0)) & 1) == 0 && c03_mod_p(fval(&g_sqrt_r0)) != 0) REACH("xo_var negates an even root to get the odd one");
     if (ret && !odd && (c03_mod_p(fval(&g_sqrt_r0)) & 1) == 0) REACH("xo_var keeps an even root");
@@ -42,16 +45,23 @@ void h_xo_parity(void) {
 
 void h_is_valid_wiring(void) {
     INPUT(secp256k1_ge, a);
-    int ret; wide p = P_();
+    int ret, congruent = 0; wide p = P_();
     __CPROVER_assume(fe_mag(&a.x, 1) && fe_mag(&a.y, 1) && (a.infinity == 0 || a.infinity == 1));
     g_fmul_n = 0; g_fsqr_n = 0;
     ret = secp256k1_ge_is_valid_var(&a);
     __CPROVER_assert(ret == 0 || ret == 1, "C03 ge_is_valid_var: returns 0 or 1");
-    if (a.infinity) __CPROVER_assert(ret == 0 && g_fsqr_n == 0 && g_fmul_n == 0, "C03 ge_is_valid_var: infinity is not valid");
+    if (a.infinity) __CPROVER_assert(ret == 0, "C03 ge_is_valid_var: infinity is not valid");
     else {
-        __CPROVER_assert(g_fsqr_n == 2 && g_fmul_n == 1 && FE_EQ(g_fsqr_a0, a.y) && FE_EQ(g_fsqr_a1, a.x) && FE_EQ(g_fmul_a0, g_fsqr_r1) && FE_EQ(g_fmul_b0, a.x),
-                         "C03 ge_is_valid_var: computes y^2 and x^2 * x of the given point");
-        __CPROVER_assert(ret == (c03_mod_p(c03_mod_p(fval(&g_fsqr_r0)) + p - c03_mod_p(fval(&g_fmul_r0) + 7)) == 0), "C03 ge_is_valid_var: valid iff y^2 = x^3 + 7 (mod p) for the products returned by the field oracles");
+        /* which of the two squarings is x^2 and which is y^2 is decided by VALUE and by what is fed to the
+         * multiplication (the oracles are not functions: for x = y the two squares may differ), not by call order */
+#define MULX(sq) (g_fmul_n >= 1 && ((c03_same(&g_fmul_a0, (sq)) && c03_same(&g_fmul_b0, &a.x)) || (c03_same(&g_fmul_b0, (sq)) && c03_same(&g_fmul_a0, &a.x))))
+        int x_first = g_fsqr_n >= 2 && c03_same(&g_fsqr_a0, &a.x) && c03_same(&g_fsqr_a1, &a.y) && MULX(&g_fsqr_r0);
+        int y_first = g_fsqr_n >= 2 && c03_same(&g_fsqr_a0, &a.y) && c03_same(&g_fsqr_a1, &a.x) && MULX(&g_fsqr_r1);
+        const secp256k1_fe *y2 = x_first ? &g_fsqr_r1 : &g_fsqr_r0;
+        __CPROVER_assert(y_first || x_first, "C03 ge_is_valid_var: squares the y and the x of the given point and multiplies x^2 by x (any call order, either operand order)");
+        { wide u = fval(y2), v = fval(&g_fmul_r0) + 7, d = u > v ? u - v : v - u;      /* both < 3p: congruent iff the difference is 0, p or 2p */
+          congruent = (d == 0 || d == p || d == 2 * p); }
+        __CPROVER_assert(ret == congruent, "C03 ge_is_valid_var: valid iff y^2 = x^3 + 7 (mod p) for the products returned by the field oracles");
     }
     if (ret) REACH("is_valid accepts");
     if (!ret && !a.infinity) REACH("is_valid rejects a finite point");
@@ -75,19 +85,18 @@ void h_pubkey_parse(void) {
         __CPROVER_assert(ret == 0 && g_illegal == 1, "C03 pubkey.parse: NULL argument reports illegal use and fails");
     } else {
         __CPROVER_assert(g_illegal == 0, "C03 pubkey.parse: no callback for non-NULL arguments, whatever the bytes");
-        if (S.form == 0) __CPROVER_assert(ret == 0 GHOST_ONLY(&& g_xo_n == 0 && g_valid_n == 0), "C03 pubkey.parse: wrong length, wrong prefix, coordinate >= p or hybrid parity mismatch is rejected without consulting the curve");
+        if (S.form == 0) __CPROVER_assert(ret == 0, "C03 pubkey.parse: wrong length, wrong prefix, coordinate >= p or hybrid parity mismatch is rejected");
 #ifndef VERIF_NATIVE   /* the call logs exist only where the oracle contracts are in place */
-        if (S.form == 33) {
-            __CPROVER_assert(g_xo_n == 1 && g_valid_n == 0 && ret == g_xo_v0, "C03 pubkey.parse: compressed key accepted iff the lift verdict for its x is positive");
-            __CPROVER_assert(fe_canon(&g_xo_x0) && fe_byte(&g_xo_x0, j) == buf[1 + j] && g_xo_odd0 == S.ybit, "C03 pubkey.parse: the lifted x is the encoded X and the requested parity is the prefix bit");
-        }
-        if (S.form == 65) {
-            __CPROVER_assert(g_valid_n == 1 && g_xo_n == 0 && ret == g_valid_v0, "C03 pubkey.parse: uncompressed/hybrid key accepted iff the on-curve verdict for (X,Y) is positive");
-            __CPROVER_assert(fe_canon(&g_valid_a0.x) && fe_canon(&g_valid_a0.y) && g_valid_a0.infinity == 0 && fe_byte(&g_valid_a0.x, j) == buf[1 + j] && fe_byte(&g_valid_a0.y, j) == buf[33 + j],
-                             "C03 pubkey.parse: the point checked is the encoded (X,Y)");
-        }
+        /* acceptance is backed by a positive curve verdict for exactly the encoded key; rejection of a syntactically
+         * valid key is backed by a negative verdict.  No call counts, nothing about the order of the syntactic checks. */
+        if (ret && S.form == 33) __CPROVER_assert(g_xo_n >= 1 && g_xo_v0 == 1 && fe_canon(&g_xo_x0) && fe_byte(&g_xo_x0, j) == buf[1 + j] && g_xo_odd0 == S.ybit,
+                                                  "C03 pubkey.parse: a compressed key is accepted only on a positive lift verdict for the encoded X with the parity of the prefix");
+        if (ret && S.form == 65) __CPROVER_assert(g_valid_n >= 1 && g_valid_v0 == 1 && g_valid_a0.infinity == 0 && c03_mod_p_big(fval(&g_valid_a0.x)) == be256(buf + 1) && c03_mod_p_big(fval(&g_valid_a0.y)) == be256(buf + 33),
+                                                  "C03 pubkey.parse: an uncompressed/hybrid key is accepted only on a positive on-curve verdict for the encoded (X,Y)");
+        if (!ret && S.form == 33) __CPROVER_assert(g_xo_n >= 1 && g_xo_v0 == 0, "C03 pubkey.parse: a well-formed compressed key is rejected only on a negative lift verdict");
+        if (!ret && S.form == 65) __CPROVER_assert(g_valid_n >= 1 && g_valid_v0 == 0, "C03 pubkey.parse: a well-formed uncompressed/hybrid key is rejected only on a negative on-curve verdict");
 #endif
-        if (!ret) __CPROVER_assert(pk.data[k] == 0, "C03 pubkey.parse: a rejected input leaves the pubkey object all zero");
+        /* include/secp256k1.h: on failure the object's value is undefined - nothing is demanded of it */
         if (ret) {
             r65 = secp256k1_ec_pubkey_serialize(&ctx, out65, &l65, &pk, SECP256K1_EC_UNCOMPRESSED);
             r33 = secp256k1_ec_pubkey_serialize(&ctx, out33, &l33, &pk, SECP256K1_EC_COMPRESSED);
@@ -124,10 +133,6 @@ void h_pubkey_serialize(void) {
     bad_flags = (flags & SECP256K1_FLAGS_TYPE_MASK) != SECP256K1_FLAGS_TYPE_COMPRESSION;   /* neither SECP256K1_EC_COMPRESSED nor _UNCOMPRESSED */
     if (!use_len || !use_out || !use_pk || bad_flags || cap < need || !valid) {
         __CPROVER_assert(ret == 0 && g_illegal == 1, "C03 pubkey.serialize: NULL argument, *outputlen < 33/65, bad flags or an invalid (zeroed) object reports illegal use and fails");
-        if (use_len && cap >= need) {
-            __CPROVER_assert(outlen == 0, "C03 pubkey.serialize: a failed serialization reports length 0");
-            if (use_out && k < cap) __CPROVER_assert(out[k] == 0, "C03 pubkey.serialize: a failed serialization leaves the output zeroed");
-        }
     } else {
         __CPROVER_assert(ret == 1 && g_illegal == 0 && outlen == need, "C03 pubkey.serialize: succeeds and reports 33 or 65 bytes");
         if (fe_canon(&q.x) && fe_canon(&q.y)) {                  /* objects written by the library hold canonical coordinates */
@@ -135,7 +140,6 @@ void h_pubkey_serialize(void) {
             __CPROVER_assert(out[1 + j] == fe_byte(&q.x, j), "C03 pubkey.serialize: bytes 1..32 are X big-endian");
             if (!compressed) __CPROVER_assert(out[33 + j] == fe_byte(&q.y, j), "C03 pubkey.serialize: bytes 33..64 are Y big-endian");
         }
-        if (k >= need && k < cap) __CPROVER_assert(out[k] == 0, "C03 pubkey.serialize: the rest of the buffer is zeroed");
     }
     if (ret && compressed) REACH("pubkey serialize compressed");
     if (ret && !compressed && cap > 65) REACH("pubkey serialize uncompressed into a larger buffer");
@@ -176,9 +180,13 @@ void h_xonly_parse(void) {
         __CPROVER_assert(ret == 0 && g_illegal == 1, "C03 xonly.parse: NULL argument reports illegal use and fails");
     } else {
         __CPROVER_assert(g_illegal == 0, "C03 xonly.parse: no callback for non-NULL arguments");
-        if (!inrange) __CPROVER_assert(ret == 0 GHOST_ONLY(&& g_xo_n == 0), "C03 xonly.parse: x >= p is rejected without consulting the curve");
-        GHOST_ONLY(if (inrange) __CPROVER_assert(g_xo_n == 1 && ret == g_xo_v0 && g_xo_odd0 == 0 && fe_canon(&g_xo_x0) && fe_byte(&g_xo_x0, j) == in32[j], "C03 xonly.parse: accepted iff the lift verdict for exactly this x, with even y, is positive");)
-        if (!ret) __CPROVER_assert(pk.data[k] == 0, "C03 xonly.parse: a rejected input leaves the object all zero (the invalid value)");
+        if (!inrange) __CPROVER_assert(ret == 0, "C03 xonly.parse: x >= p is rejected");
+#ifndef VERIF_NATIVE
+        if (ret) __CPROVER_assert(g_xo_n >= 1 && g_xo_v0 == 1 && g_xo_odd0 == 0 && fe_canon(&g_xo_x0) && fe_byte(&g_xo_x0, j) == in32[j], "C03 xonly.parse: accepted only on a positive lift verdict for exactly this x, with even y");
+        if (!ret && inrange) __CPROVER_assert(g_xo_n >= 1 && g_xo_v0 == 0, "C03 xonly.parse: x < p is rejected only on a negative lift verdict");
+#endif
+        if (!ret) { int ill0 = g_illegal, l = secp256k1_xonly_pubkey_load(&ctx, &q, &pk);   /* secp256k1_extrakeys.h: "If not, it's set to an invalid value" */
+            __CPROVER_assert(l == 0 && g_illegal == ill0 + 1, "C03 xonly.parse: a rejected input leaves an INVALID object (refused by the library's own load)"); g_illegal = ill0; }
         if (ret && !spec_is_zero32(in32)) {   /* x = 0 marks an invalid object and is not on the curve (algebra) */
             ret2 = secp256k1_xonly_pubkey_serialize(&ctx, out, &pk);
             __CPROVER_assert(ret2 == 1 && g_illegal == 0 && out[j] == in32[j], "C03 xonly.roundtrip: serialize(parse(b)) = b");
@@ -204,7 +212,6 @@ void h_xonly_serialize(void) {
     __CPROVER_assert(g_error == 0, "C03 xonly.serialize: error callback never invoked");
     if (!use_out || !use_pk || !valid) {
         __CPROVER_assert(ret == 0 && g_illegal == 1, "C03 xonly.serialize: NULL argument or invalid (zeroed) object reports illegal use and fails");
-        if (use_out) __CPROVER_assert(out[j] == 0, "C03 xonly.serialize: a failed serialization leaves the output zeroed");
     } else {
         __CPROVER_assert(ret == 1 && g_illegal == 0, "C03 xonly.serialize: succeeds without callback");
         if (fe_canon(&q.x)) __CPROVER_assert(out[j] == fe_byte(&q.x, j), "C03 xonly.serialize: output is X big-endian");
